@@ -157,6 +157,7 @@ type Options struct {
 type exec struct {
 	opts     Options
 	threads  []*thread
+	live     []*thread // unfinished threads, ascending id
 	cur      *thread
 	now      int64
 	timers   []*timer
@@ -260,6 +261,7 @@ func (e *exec) newThread(parent int, name string, app bool) *thread {
 		t.cid = mix(mix(0x51ed270b, p.cid), p.spawned)
 	}
 	e.threads = append(e.threads, t)
+	e.live = append(e.live, t)
 	if e.hb != nil {
 		e.hb.newThread(t, parent)
 	}
@@ -294,6 +296,7 @@ func threadExit(e *exec, t *thread) {
 	if r != nil {
 		e.res.Panics = append(e.res.Panics, PanicInfo{t.id, t.name, fmt.Sprint(r), trimStack(string(debug.Stack()))})
 		t.state = stDone
+		e.dropLive(t)
 		e.finish()
 		close(t.exited)
 		return
@@ -305,6 +308,7 @@ func threadExit(e *exec, t *thread) {
 	// normal exit (or Goexit from user code)
 	raceReleaseMerge(unsafe.Pointer(t)) // Thread.Join acquires
 	t.state = stDone
+	e.dropLive(t)
 	for _, j := range t.joiners {
 		e.makeRunnable(j)
 	}
@@ -359,6 +363,23 @@ func (e *exec) makeRunnable(t *thread) {
 	}
 }
 
+// dropLive removes a finished thread from the list the scheduler scans at every point (ascending ids are
+// kept): executions that spawn a goroutine per packet stay linear in their length.
+//
+//go:norace
+func (e *exec) dropLive(t *thread) {
+	for i := len(e.live) - 1; i >= 0; i-- {
+		if e.live[i] == t {
+			for k := i; k+1 < len(e.live); k++ {
+				e.live[k] = e.live[k+1]
+			}
+			e.live[len(e.live)-1] = nil
+			e.live = e.live[:len(e.live)-1]
+			return
+		}
+	}
+}
+
 // enabledOpts lists the runnable threads in canonical order.
 //
 //go:norace
@@ -367,7 +388,7 @@ func (e *exec) enabledOpts(running *thread, runningEnabled bool, withClock bool)
 	if runningEnabled {
 		opts = append(opts, running.id)
 	}
-	for _, t := range e.threads {
+	for _, t := range e.live {
 		if t.state == stRunnable && !t.quiesce && t != running {
 			opts = append(opts, t.id)
 		}
@@ -499,7 +520,7 @@ func (e *exec) dispatchFrom(t *thread, runningEnabled bool, op Op, obj int) {
 
 //go:norace
 func (e *exec) quiescer() *thread {
-	for _, t := range e.threads {
+	for _, t := range e.live {
 		if t.quiesce && t.state == stRunnable {
 			return t
 		}
